@@ -167,7 +167,7 @@ Definition call_is (e : ev) (c : call) : bool := match c with LCall e' _ => ev_e
 Definition parse_adm (x : option exk) : bool := match x with None | Some KFault => true | _ => false end.
 Definition raise_adm (x : option exk) : bool := match x with None | Some KFault | Some KOther => true | _ => false end.
 Definition scen_adm (wsgi : bool) (sc : scen) : bool :=
-  parse_adm (sc_create sc) && parse_adm (sc_decomp sc) && parse_adm (sc_dispatch sc) && parse_adm (sc_deser sc)
+  parse_adm (sc_recon sc) && parse_adm (sc_create sc) && parse_adm (sc_decomp sc) && parse_adm (sc_dispatch sc) && parse_adm (sc_deser sc)
   && raise_adm (sc_fn sc) && raise_adm (sc_ser sc) && (wsgi || is_noneb (sc_ser sc))
   && negb (sc_opaque sc).
 
